@@ -709,3 +709,10 @@ $ErrorActionPreference = "Stop"
 
     Ok(())
 }
+
+#[cfg(feature = "verif")]
+pub mod verif_hooks {
+    pub fn make_string_constant(s: &str) -> String {
+        super::make_string_constant(s)
+    }
+}
